@@ -16,6 +16,8 @@ import (
 //	                                               viewer: [user, user:*] but not a }
 //	lu_inter_excl       type user; type document { banned: [user]; member: [user, user:*]; active: [user, user:*];
 //	                                               viewer: (member but not banned) and active }
+//	lu_userset_wild     type user; type group { member: [user, user:*] };
+//	                    type document { blocked: [group#member]; viewer: [group#member] but not blocked }
 
 func verifE06This() *openfgav1.Userset {
 	return &openfgav1.Userset{Userset: &openfgav1.Userset_This{}}
@@ -104,6 +106,24 @@ func verifE06Model(name string) *openfgav1.AuthorizationModel {
 				"member": {verifE06Ref("user"), verifE06RefWild("user")},
 				"active": {verifE06Ref("user"), verifE06RefWild("user")},
 				"viewer": {},
+			}),
+		})
+	case "lu_userset_wild":
+		return verifE06ModelOf(&openfgav1.TypeDefinition{
+			Type:      "group",
+			Relations: map[string]*openfgav1.Userset{"member": verifE06This()},
+			Metadata: verifE06Meta(map[string][]*openfgav1.RelationReference{
+				"member": {verifE06Ref("user"), verifE06RefWild("user")},
+			}),
+		}, &openfgav1.TypeDefinition{
+			Type: "document",
+			Relations: map[string]*openfgav1.Userset{
+				"blocked": verifE06This(),
+				"viewer":  verifE06Diff(verifE06This(), verifE06Computed("blocked")),
+			},
+			Metadata: verifE06Meta(map[string][]*openfgav1.RelationReference{
+				"blocked": {verifE06RefRel("group", "member")},
+				"viewer":  {verifE06RefRel("group", "member")},
 			}),
 		})
 	}
